@@ -35,6 +35,8 @@ pub enum LfoOp {
     Reset,
     /// read the five shapes in the order given by this permutation index (0..120), twice
     Read(u8),
+    /// n times: set_frequency(a), tick, set_frequency(b), tick (many frequency changes in a row)
+    FreqBurst { a: f32, b: f32, n: u16 },
 }
 
 #[derive(Debug, Clone, Serialize, Deserialize, PartialEq)]
@@ -259,8 +261,23 @@ pub fn run_case(case: &LfoCase, mask: u32, tick_budget: u64, stats: &mut Stats) 
     let mut nt12 = false;
     let mut nt10 = false;
 
-    for (step, op) in case.ops.iter().enumerate() {
+    // FreqBurst is a macro: expand it into primitive ops first
+    let mut expanded: Vec<LfoOp> = Vec::with_capacity(case.ops.len());
+    for op in &case.ops {
+        if let LfoOp::FreqBurst { a, b, n } = op {
+            for _ in 0..*n {
+                expanded.push(LfoOp::SetFrequency(*a));
+                expanded.push(LfoOp::Tick(1));
+                expanded.push(LfoOp::SetFrequency(*b));
+                expanded.push(LfoOp::Tick(1));
+            }
+        } else {
+            expanded.push(op.clone());
+        }
+    }
+    for (step, op) in expanded.iter().enumerate() {
         match op {
+            LfoOp::FreqBurst { .. } => {}
             LfoOp::Reset => {
                 lfo.reset();
                 if mask & C11 != 0 && lfo.verif_phase_bits() != 0 {
@@ -520,6 +537,18 @@ pub fn sweep_c10(lo: u32, hi: u32, stride: u32, stats: &mut Stats) -> Result<u64
             }
             l.tick();
             acc += 1;
+        }
+        if hi == TWO24 {
+            // the tick out of the last counter value must land on the first one again
+            if l.verif_phase_bits() != 0 {
+                let got = l.verif_phase_bits();
+                if got >= TWO24 {
+                    check_shapes(&l, 0, got as usize, stats)?;
+                }
+                stats.note(format!("the tick out of counter 2^24-1 landed on {} instead of 0", got));
+            } else {
+                check_shapes(&l, 7, 0, stats)?;
+            }
         }
     } else {
         let mut acc = lo;
